@@ -258,3 +258,72 @@ class Relay(Harness):
 
         err = asyncio.run(asyncio.wait_for(go(), 60))
         return {"observed": err, "clause": "responses from the user process reach the client unmodified and in order"} if err else None
+
+
+class ProxyLoop(Harness):
+    """C08 / C06 / C19 (c): the per-connection loop of the user process (real IMAPClientProxy.run on a real IMAPUserServer):
+    every framed command -- parsable or not -- gets exactly one tagged reply, in order, and an unparsable one does not end the connection."""
+
+    scope = "all sequences of 1-3 commands from {NOOP, SELECT inbox, FETCH 1 (FLAGZ) [bad syntax], XYZZY [unknown command], FETCH 1 BODY[ [truncated], STATUS inbox (MESSAGES)} framed as the front end frames them"
+    exhaustive = True
+
+    CMDS = ["NOOP", "SELECT inbox", "FETCH 1 (FLAGZ)", "XYZZY", "FETCH 1 BODY[", "STATUS inbox (MESSAGES)"]
+
+    def inputs(self, tier, seed):
+        n = 3
+        for k in range(1, n + 1):
+            for seq in itertools.product(range(len(self.CMDS)), repeat=k):
+                if any(i in (2, 3, 4) for i in seq):      # at least one unparsable command
+                    yield {"commands": list(seq)}
+
+    def check(self, inp):
+        import logging
+        from unittest.mock import AsyncMock, MagicMock
+
+        from asimap.user_server import IMAPClientProxy
+
+        from .realsrv import World
+
+        logging.disable(logging.CRITICAL)
+
+        async def go():
+            async with World({"inbox": 2}) as w:
+                reader = asyncio.StreamReader()
+                out = bytearray()
+                writer = MagicMock(spec=asyncio.StreamWriter)
+                writer.write = MagicMock(side_effect=out.extend)
+                writer.drain = AsyncMock()
+                writer.is_closing = MagicMock(return_value=False)
+                writer.wait_closed = AsyncMock()
+                closed = []
+                writer.close = MagicMock(side_effect=lambda: closed.append(True))
+                p = IMAPClientProxy(w.server, "t", 1, "127.0.0.1", 1234, reader, writer)
+                tags = []
+                for n, i in enumerate(inp["commands"]):
+                    tag = f"t{n}"
+                    tags.append(tag)
+                    b = f"{tag} {self.CMDS[i]}\r\n".encode("latin-1")
+                    reader.feed_data(b"{%d}\n" % len(b) + b)
+                task = asyncio.create_task(p.run())
+                try:
+                    for _ in range(300):
+                        await asyncio.sleep(0.01)
+                        if task.done() or all(re.search(rb"(^|\n)" + t.encode() + rb" (OK|NO|BAD) ", bytes(out)) for t in tags):
+                            break
+                    text = bytes(out).decode("latin-1")
+                    got = re.findall(r"(?m)^(t\d+) (OK|NO|BAD) ", text)
+                    if [g[0] for g in got] != tags:
+                        return f"tagged replies {got} for commands {[self.CMDS[i] for i in inp['commands']]} (connection task ended: {task.done()}, closed: {bool(closed)})"
+                    if task.done() or closed:
+                        return f"the connection was closed after {got[-1] if got else None}"
+                    return None
+                finally:
+                    if not task.done():
+                        task.cancel()
+                        try:
+                            await task
+                        except (asyncio.CancelledError, Exception):
+                            pass
+
+        err = asyncio.run(asyncio.wait_for(go(), 60))
+        return {"observed": err, "clause": "an unparsable command is answered with BAD and the connection goes on: every command gets exactly one tagged reply, in order"} if err else None
